@@ -380,6 +380,10 @@ def final_pass_rule(chk, prog):
             continue
         if not any(x is par for x in backward_slice(c.ops[0], phi_control=False)):
             continue
+        g.build()
+        if not any(i.op == "store" and any(x is g.params[0] for x in backward_slice(i.ops[1], phi_control=False))
+                   for i in g.insts()):
+            continue            # a predicate over the string, not a pass that rewrites it
         after = reach(rewrite)
         if c.bb not in after or not (reach([c.bb]) & succ_ret):
             continue            # the pass in front of the rewrite
